@@ -109,4 +109,40 @@ example : (parseWith Cfg.current 3 chunkConst lastVertexFile).toOption.map
 example : [1, 2, 3].map (fun np => partRead np onePastFile) = [.error .invalid, .error .invalid, .error .invalid] := by
   decide +kernel
 
+/-! ### the declared counts are NOT validated: two counterexamples (findings/partmeshb-count-*) -/
+
+/-- a 244-byte version-4 file that declares 2^32 tetrahedra -/
+def count2pow32File : Bytes :=
+  [1, 0, 0, 0, 4, 0, 0, 0, 3, 0, 0, 0, 24, 0, 0, 0, 0, 0, 0, 0, 3, 0, 0, 0, 4, 0, 0, 0, 172, 0, 0, 0, 0, 0, 0,
+   0, 4, 0, 0, 0, 0, 0, 0, 0, 0, 0, 0, 0, 0, 0, 0, 0, 0, 0, 0, 0, 0, 0, 0, 0, 0, 0, 0, 0, 0, 0, 0, 0, 1, 0, 0,
+   0, 0, 0, 0, 0, 0, 0, 0, 0, 0, 0, 240, 63, 0, 0, 0, 0, 0, 0, 224, 63, 0, 0, 0, 0, 0, 0, 240, 191, 1, 0, 0, 0,
+   0, 0, 0, 0, 0, 0, 0, 0, 0, 0, 0, 64, 0, 0, 0, 0, 0, 0, 240, 63, 0, 0, 0, 0, 0, 0, 0, 192, 1, 0, 0, 0, 0, 0,
+   0, 0, 0, 0, 0, 0, 0, 0, 8, 64, 0, 0, 0, 0, 0, 0, 248, 63, 0, 0, 0, 0, 0, 0, 8, 192, 1, 0, 0, 0, 0, 0, 0, 0,
+   8, 0, 0, 0, 232, 0, 0, 0, 0, 0, 0, 0, 0, 0, 0, 0, 1, 0, 0, 0, 1, 0, 0, 0, 0, 0, 0, 0, 2, 0, 0, 0, 0, 0, 0,
+   0, 3, 0, 0, 0, 0, 0, 0, 0, 4, 0, 0, 0, 0, 0, 0, 0, 0, 0, 0, 0, 0, 0, 0, 0, 54, 0, 0, 0, 0, 0, 0, 0, 0, 0, 0,
+   0]
+
+/-- a 184-byte version-2 file that declares 2^31-1 tetrahedra -/
+def countIntMaxFile : Bytes :=
+  [1, 0, 0, 0, 2, 0, 0, 0, 3, 0, 0, 0, 20, 0, 0, 0, 3, 0, 0, 0, 4, 0, 0, 0, 144, 0, 0, 0, 4, 0, 0, 0, 0, 0, 0,
+   0, 0, 0, 0, 0, 0, 0, 0, 0, 0, 0, 0, 0, 0, 0, 0, 0, 0, 0, 0, 0, 1, 0, 0, 0, 0, 0, 0, 0, 0, 0, 240, 63, 0, 0,
+   0, 0, 0, 0, 224, 63, 0, 0, 0, 0, 0, 0, 240, 191, 1, 0, 0, 0, 0, 0, 0, 0, 0, 0, 0, 64, 0, 0, 0, 0, 0, 0, 240,
+   63, 0, 0, 0, 0, 0, 0, 0, 192, 1, 0, 0, 0, 0, 0, 0, 0, 0, 0, 8, 64, 0, 0, 0, 0, 0, 0, 248, 63, 0, 0, 0, 0, 0,
+   0, 8, 192, 1, 0, 0, 0, 8, 0, 0, 0, 176, 0, 0, 0, 255, 255, 255, 127, 1, 0, 0, 0, 2, 0, 0, 0, 3, 0, 0, 0, 4,
+   0, 0, 0, 0, 0, 0, 0, 54, 0, 0, 0, 0, 0, 0, 0]
+
+/-- **"the reader returns on every file" is FALSE of the reader as it is**: with a declared count of 2^32 both
+    `chunk` and `section_size` are `(REF_INT)` casts that give 0, the loop `while (ncell_read < ncell)` makes no
+    progress (the model's `diverge`; the real reader is killed by the timeout on these bytes).  On 2 ranks
+    `chunk = (REF_INT)2^31` is negative and `size_per * chunk` overflows instead. -/
+theorem partCell_count_loop_counterexample :
+    partRead 1 count2pow32File = .error .diverge ∧ partRead 2 count2pow32File = .error .undefined := by
+  decide +kernel
+
+/-- **"no undefined behaviour on a malformed file" is FALSE of the reader as it is**: `size_per * chunk` is computed
+    in `int` from the declared count before anything is read (the model's `undefined`; UBSan aborts the real reader
+    on these bytes at ref_part.c:439) -/
+theorem partCell_count_overflow_counterexample : partRead 1 countIntMaxFile = .error .undefined := by
+  decide +kernel
+
 end Refine.Props.C20PartMeshb
